@@ -194,6 +194,22 @@ func doDec(out *bufio.Writer, cid string, data []byte) {
 	}
 	fmt.Fprintf(out, "REENC %s %s\n", cid, hex.EncodeToString(b2.Bytes()))
 }
+func doDecR(out *bufio.Writer, cid string, a, b []byte) {
+	defer func() {
+		if r := recover(); r != nil { fmt.Fprintf(out, "DECERR %s PANIC: %s\n", cid, clean(fmt.Sprint(r))) }
+	}()
+	obj := &@ROOT@{}
+	func() {
+		defer func() { recover() }()
+		_ = obj.Decode(bytes.NewBuffer(append([]byte(nil), a...)))
+	}()
+	buf := bytes.NewBuffer(append([]byte(nil), b...))
+	if err := obj.Decode(buf); err != nil {
+		fmt.Fprintf(out, "DECERR %s %s\n", cid, clean(err.Error()))
+		return
+	}
+	fmt.Fprintf(out, "DEC %s %d %s\n", cid, buf.Len(), @DUMPROOT@(obj))
+}
 func main() {
 	f, err := os.Open(os.Args[1])
 	if err != nil { panic(err) }
@@ -208,6 +224,12 @@ func main() {
 			fmt.Sscanf(parts[1], "%d", &i)
 			fmt.Fprintf(out, "BEGIN E %d\n", i); out.Flush()
 			doEnc(out, i)
+		} else if parts[0] == "R" {
+			fmt.Fprintf(out, "BEGIN R %s\n", parts[1]); out.Flush()
+			var a, b []byte
+			if parts[2] != "-" { a = hx(parts[2]) }
+			if parts[3] != "-" { b = hx(parts[3]) }
+			doDecR(out, parts[1], a, b)
 		} else if parts[0] == "D" {
 			fmt.Fprintf(out, "BEGIN D %s\n", parts[1]); out.Flush()
 			var data []byte
